@@ -16,4 +16,5 @@ INVARIANT ValidatedIsOne
 INVARIANT IterEqBatch
 INVARIANT LookaheadOK
 INVARIANT HintsHonoured
+INVARIANT StreamRewriteOK
 CHECK_DEADLOCK FALSE
